@@ -333,7 +333,7 @@ var c10CLICmds = []struct {
 
 var c10Shapes = []string{"dir", "long-entry", "long-comment", "long-note", "long-heading"}
 var c10Sizes = []int{64 * 1024, 64*1024 + 1, 70 * 1024, 200 * 1024}
-var c10Positions = []string{"first", "middle", "last", "first-then-big", "first-both-big"}
+var c10Positions = []string{"first", "middle", "last", "first-then-big", "first-both-big", "last-behind-repeat"}
 
 type c10CLICase struct {
 	Cmd      int    `json:"cmd"`
@@ -398,6 +398,10 @@ func c10LongFile(isLog bool, shape string, size int, pos string) string {
 			}
 		}
 		recs = append(recs, sb.String())
+	case "last-behind-repeat":
+		// the first record is declared a second time (word for word) before the others: whatever a reader does about a
+		// repeated heading, the rest of the file is still to be read
+		recs = []string{recs[0], recs[0], recs[1], recs[2] + long}
 	case "first":
 		recs[0] = ins(recs[0])
 	case "middle":
